@@ -32,6 +32,7 @@ definitions + extracted literals) and the differential run of model vs reader on
 -/
 import SmVerif.Model.NgReader
 import SmVerif.Model.LoaderChain
+import SmVerif.Model.SbtNodes
 import SmVerif.Lemmas.C20Readers
 
 namespace Sm.C20
@@ -802,6 +803,34 @@ theorem sbt_missing_range_instance :
     (okOf (loadSbt litModel (sbtFile (oneLeaf (s "1000000000000000")))).res).map (·.nMissing) = some (10 ^ 15) ∧
     (loadSbt litModel (sbtFile (oneLeaf (s "1000000000000000")))).work = 10 ^ 15 + 2 := by
   decide +kernel
+
+/-! ### lazy node / leaf loaders: a referenced file that is missing must be an error -/
+
+open Sm.SbtN in
+/-- **loud**: with nothing swallowed, whatever the storage raises for a node file comes out of `Node.data`
+    unchanged, and a search step at that node never returns normally -/
+theorem node_data_loud (c parseError : Cls) (hits : Bool) :
+    nodeDataV [] (.raises c) parseError = .error (.exc c) ∧ descendV [] (.raises c) parseError hits = .error (.exc c) := by
+  constructor <;> rfl
+
+open Sm.SbtN in
+/-- … and that is what the current source does, for internal nodes and for leaves (re-read on every run) -/
+theorem node_data_current : nodeSwallows = [] ∧ leafSwallows = [] := by decide
+
+open Sm.SbtN in
+/-- **regression (seeded change C20d)**: a loader that catches FileNotFoundError and substitutes a fresh filter makes the
+    search step answer "do not descend" although the saved filter would have let the query through — the signatures
+    below are silently missing.  Through the zip storage the same happens for every native failure the ffi maps to
+    ValueError (entry name damaged in the central directory, unreadable entry), because `ZipStorage.load` turns those
+    into FileNotFoundError. -/
+theorem node_data_swallowing_is_silent :
+    okOf (descendV [.FileNotFoundError] (.raises .FileNotFoundError) .Other true) = some false ∧
+    Gen.c20ZipLoadValueErrorBecomes = "FileNotFoundError" ∧
+    okOf (descendV [.FileNotFoundError] (zipLoad (some .ValueError) true) .Other true) = some false ∧
+    excOf (descendV [] (zipLoad (some .ValueError) true) .Other true) = some .FileNotFoundError ∧
+    -- damaged CONTENTS stay loud either way
+    excOf (descendV [.FileNotFoundError] (.bytes false) .Other true) = some .Other := by
+  decide
 
 /-! ### the loader chain: `_load_database` -/
 
